@@ -111,6 +111,76 @@ theorem residFold_cap (f : Matrix) (dim : Nat) (E : List (Nat × Nat))
       simp only [Resid, List.mem_cons, Prod.mk.injEq] at hr ⊢
       grind
 
+theorem residFold_rows_nodup (f : Matrix) (dim : Nat) (E : List (Nat × Nat))
+    (hE : ∀ e ∈ E, e.1 < dim ∧ e.2 < dim) (hnd : E.Nodup) (hanti : ∀ a b, (a, b) ∈ E → (b, a) ∉ E)
+    (st : Graph × Matrix) (hlen : st.1.length = dim) (hst : ∀ u, (adj st.1 u).Nodup)
+    (hfresh : ∀ u v, v ∈ adj st.1 u → (u, v) ∉ E ∧ (v, u) ∉ E) :
+    ∀ u, (adj (E.foldl (residualEdge f) st).1 u).Nodup := by
+  induction E generalizing st with
+  | nil => simpa using hst
+  | cons e rest ih =>
+    have he := hE e (by simp)
+    have hrest : ∀ e' ∈ rest, e'.1 < dim ∧ e'.2 < dim := fun e' h => hE e' (by simp [h])
+    have hnd' := List.nodup_cons.mp hnd
+    have hanti' : ∀ a b, (a, b) ∈ rest → (b, a) ∉ rest := fun a b h h' =>
+      hanti a b (by simp [h]) (by simp [h'])
+    obtain ⟨a, b⟩ := e
+    have hswap : (b, a) ∉ rest := fun h => hanti a b (by simp) (by simp [h])
+    simp only [List.foldl_cons]
+    have hlen1 : (residualEdge f st (a, b)).1.length = dim := by
+      unfold residualEdge; split <;> simp [length_pushAdj, hlen]
+    apply ih hrest hnd'.2 hanti' _ hlen1
+    · intro u
+      unfold residualEdge
+      split
+      · simp only [adj_pushAdj]
+        split
+        · rename_i h
+          obtain ⟨rfl, _⟩ := h
+          rw [List.nodup_append]
+          refine ⟨hst _, by simp, ?_⟩
+          intro x hx y hy
+          simp only [List.mem_singleton] at hy; subst hy
+          intro e; subst e
+          exact (hfresh _ _ hx).2 (by simp)
+        · exact hst u
+      · simp only [adj_pushAdj]
+        split
+        · rename_i h
+          obtain ⟨rfl, _⟩ := h
+          rw [List.nodup_append]
+          refine ⟨hst _, by simp, ?_⟩
+          intro x hx y hy
+          simp only [List.mem_singleton] at hy; subst hy
+          intro e; subst e
+          exact (hfresh _ _ hx).1 (by simp)
+        · exact hst u
+    · intro u v hv
+      unfold residualEdge at hv
+      split at hv
+      · simp only [adj_pushAdj] at hv
+        split at hv
+        · rename_i h
+          obtain ⟨rfl, _⟩ := h
+          simp only [List.mem_append, List.mem_singleton] at hv
+          rcases hv with hv | rfl
+          · have := hfresh _ _ hv
+            exact ⟨fun h => this.1 (by simp [h]), fun h => this.2 (by simp [h])⟩
+          · exact ⟨hswap, hnd'.1⟩
+        · have := hfresh _ _ hv
+          exact ⟨fun h => this.1 (by simp [h]), fun h => this.2 (by simp [h])⟩
+      · simp only [adj_pushAdj] at hv
+        split at hv
+        · rename_i h
+          obtain ⟨rfl, _⟩ := h
+          simp only [List.mem_append, List.mem_singleton] at hv
+          rcases hv with hv | rfl
+          · have := hfresh _ _ hv
+            exact ⟨fun h => this.1 (by simp [h]), fun h => this.2 (by simp [h])⟩
+          · exact ⟨hnd'.1, hswap⟩
+        · have := hfresh _ _ hv
+          exact ⟨fun h => this.1 (by simp [h]), fun h => this.2 (by simp [h])⟩
+
 theorem edgesOf_lt (g : Graph) (hr : ∀ u v, v ∈ adj g u → v < g.length) :
     ∀ e ∈ edgesOf g, e.1 < g.length ∧ e.2 < g.length := by
   intro e he
@@ -132,6 +202,18 @@ theorem residual_graph (g : Graph) (f : Matrix) (hr : ∀ u v, v ∈ adj g u →
   have : ¬ v ∈ adj (List.replicate g.length ([] : List Nat)) u := by
     simp only [adj, getD_replicate]; split <;> simp
   simp only [this, false_or, Resid, mem_edgesOf]
+
+/-- the rows of the residual graph are duplicate-free -/
+theorem residual_rows_nodup (g : Graph) (f : Matrix) (hr : ∀ u v, v ∈ adj g u → v < g.length)
+    (hnd : (edgesOf g).Nodup) (hanti : ∀ a b, b ∈ adj g a → a ∉ adj g b) (u : Nat) :
+    (adj (residualNetwork g f).1 u).Nodup := by
+  apply residFold_rows_nodup f g.length (edgesOf g) (edgesOf_lt g hr) hnd
+    (fun a b h1 h2 => hanti a b ((mem_edgesOf g a b).mp h1) ((mem_edgesOf g b a).mp h2))
+    _ (by simp)
+  · intro u; simp only [adj, getD_replicate]; split <;> simp
+  · intro u v hv
+    simp only [adj, getD_replicate] at hv
+    split at hv <;> simp at hv
 
 /-- every edge of the residual graph has residual capacity 1 -/
 theorem residual_cap (g : Graph) (f : Matrix) (hr : ∀ u v, v ∈ adj g u → v < g.length)
